@@ -221,3 +221,231 @@ def unit_acrobot(S):
 
 
 UNITS = [("cartpole", unit_cartpole), ("mountaincar", unit_mountaincar), ("continuous-mountaincar", unit_cmountaincar), ("acrobot", unit_acrobot)]
+
+
+# ======================================================================================================================
+# MuJoCo (Gymnasium v5): the REAL installed Gymnasium step / _get_obs / _get_rew code executed symbolically
+# ======================================================================================================================
+
+MUJOCO = {
+    "Ant": ("ant_v5", "AntEnv"), "HalfCheetah": ("half_cheetah_v5", "HalfCheetahEnv"), "Hopper": ("hopper_v5", "HopperEnv"), "Humanoid": ("humanoid_v5", "HumanoidEnv"),
+    "HumanoidStandup": ("humanoidstandup_v5", "HumanoidStandupEnv"), "InvertedDoublePendulum": ("inverted_double_pendulum_v5", "InvertedDoublePendulumEnv"),
+    "InvertedPendulum": ("inverted_pendulum_v5", "InvertedPendulumEnv"), "Pusher": ("pusher_v5", "PusherEnv"), "Reacher": ("reacher_v5", "ReacherEnv"), "Swimmer": ("swimmer_v5", "SwimmerEnv"),
+    "Walker2d": ("walker2d_v5", "Walker2dEnv"),
+}
+
+
+class NPShim:
+    """jax.numpy standing in for numpy inside the Gymnasium module while its code is executed on symbolic data"""
+    def __getattr__(self, n):
+        if n in ("float64", "float32"):
+            return jnp.float32
+        if n == "ndarray":
+            return jnp.ndarray
+        return getattr(jnp, n)
+
+
+class FakeBody:
+    def __init__(self, d, i):
+        self._d, self._i = d, i
+
+    def __getattr__(self, n):
+        return getattr(self._d, n)[self._i]
+
+
+class FakeData:
+    """mujoco.MjData look-alike backed by a (symbolic) mjx.Data"""
+    def __init__(self, d, model):
+        self._d, self._m = d, model
+
+    def __getattr__(self, n):
+        return getattr(self._d, n)
+
+    def body(self, key):
+        import mujoco
+        i = key if isinstance(key, (int, np.integer)) else mujoco.mj_name2id(self._m, mujoco.mjtObj.mjOBJ_BODY, key)
+        return FakeBody(self._d, int(i))
+
+    def site(self, key):
+        import mujoco
+        i = key if isinstance(key, (int, np.integer)) else mujoco.mj_name2id(self._m, mujoco.mjtObj.mjOBJ_SITE, key)
+        d = self._d
+        return types.SimpleNamespace(xpos=d.site_xpos[int(i)])
+
+
+class FakeModel:
+    """the Gymnasium environment's MjModel with float arrays as float32 jax arrays (the precision the compared code runs in), so that
+    constants derived from the model (e.g. the total mass) are computed in the same arithmetic on both sides"""
+    def __init__(self, m):
+        self._m = m
+
+    def __getattr__(self, n):
+        v = getattr(self._m, n)
+        if isinstance(v, np.ndarray) and v.dtype.kind == "f":
+            return jnp.asarray(v, jnp.float32)
+        return v
+
+
+def _install_flat():
+    from jax._src import core as jcore
+    if not getattr(jcore.ShapedArray, "_lvc_flat", False):
+        jcore.ShapedArray.flat = jcore.aval_property(lambda self: self.ravel())
+        jcore.ShapedArray._lvc_flat = True
+
+
+def gym_step(gmod, genv, d0, d1, action):
+    """run the real Gymnasium step(): physics replaced by a swap from the symbolic pre-step data to the symbolic post-step data"""
+    from gymnasium.envs.mujoco import mujoco_env as ME
+    _install_flat()
+    old_np, old_me = gmod.np, ME.np
+    gmod.np = NPShim()
+    ME.np = NPShim()
+    real_data, real_model = genv.data, genv.model
+    try:
+        genv.data = FakeData(d0, real_model)
+        genv.model = FakeModel(real_model)
+
+        def do_sim(ctrl, n):
+            genv.data = FakeData(d1, real_model)
+        genv.do_simulation = do_sim
+        return genv.step(action)
+    finally:
+        gmod.np, ME.np = old_np, old_me
+        genv.data, genv.model = real_data, real_model
+
+
+def unit_mujoco(name):
+    def unit(S):
+        from mujoco import mjx
+        from lerax.env import mujoco as LM
+        from lerax.env.mujoco.base_mujoco import MujocoEnvState
+        gmodname, gcls = MUJOCO[name]
+        gmod = importlib.import_module(f"gymnasium.envs.mujoco.{gmodname}")
+        fnp = f"lerax.env.mujoco:{name}"
+        S.under_contract(fnp + ".observation", fnp + ".reward", fnp + ".terminal", fnp + ".transition_info", fnp + ".initial")
+        genv = getattr(gmod, gcls)()
+        lenv = getattr(LM, name)()
+        ctx = Ctx()
+        dstruct = jax.eval_shape(lambda: mjx.make_data(lenv.model))
+        d0, d1 = sym(ctx, "d0", dstruct), sym(ctx, "d1", dstruct)
+        a = sym(ctx, "a", sd(lenv.action_space.shape, f32))
+        k = jax.random.key(0)
+        S.fact(f"{name}/same-model-and-frame-skip", genv.model.nq == lenv.mujoco_model.nq and genv.model.nv == lenv.mujoco_model.nv and genv.frame_skip == lenv.frame_skip
+               and abs(genv.dt - float(lenv.dt)) < 1e-9 and np.allclose(genv.init_qpos, np.asarray(lenv.init_qpos)) and np.allclose(genv.model.body_mass, lenv.mujoco_model.body_mass),
+               function=fnp + ".__init__", what="same MuJoCo model (dimensions, body masses, initial configuration), frame_skip and dt as the Gymnasium v5 environment")
+        paths = fork_paths(lambda x0, x1, aa: gym_step(gmod, genv, x0, x1, aa), (d0, d1, a), max_paths=4096)
+        mk = lambda x: MujocoEnvState(sim_state=x, t=jnp.asarray(0.0))
+        lobs = run(ctx, lambda x1: lenv.observation(mk(x1), key=k), d1)
+        lrew = run(ctx, lambda x0, x1, aa: lenv.reward(mk(x0), aa, mk(x1), key=k), d0, d1, a)
+        lterm = run(ctx, lambda x1: lenv.terminal(mk(x1), key=k), d1)
+        linfo = run(ctx, lambda x0, x1, aa: lenv.transition_info(mk(x0), aa, mk(x1)), d0, d1, a)
+        fin = []
+        for fld in ("qpos", "qvel"):
+            for dd in (d0, d1):
+                arr = getattr(dd, fld)
+                fin += [z3.And(arr.at(i) > -ir.INF, arr.at(i) < ir.INF) for i in arr.indices()]
+        # A-MJX (kinematics): xipos_b = xpos_b + R_b * ipos_b; for bodies whose inertial frame sits at the body origin (ipos_b = 0 in the model) the two coincide
+        ipos = np.asarray(lenv.mujoco_model.body_ipos)
+        for b in range(ipos.shape[0]):
+            if np.all(ipos[b] == 0):
+                for dd in (d0, d1):
+                    fin += [dd.xipos.at((b, c_)) == dd.xpos.at((b, c_)) for c_ in range(3)]
+        # AbstractMujocoEnv.transition writes ctrl = action before stepping and mjx.step leaves ctrl untouched (A-MJX): the post-step data carries the action
+        fin += [d1.ctrl.at(i) == a.at(i) for i in a.indices()]
+        in_range = [z3.And(a.at(i) >= ir.zreal(ir.const_float(np.float32(lenv.action_space.low[i]))), a.at(i) <= ir.zreal(ir.const_float(np.float32(lenv.action_space.high[i])))) for i in a.indices()]
+        goals = dict(observation=[], reward=[], terminated=[])
+        sat_paths = 0
+        from lvc.vc import _solve_z3
+        for tr, dyn, dec in paths:
+            conds, (gobs, grew, gterm, gtrunc, ginfo) = eval_traced(ctx, tr, dyn)
+            pc = sand(*[ir.seq(c.scalar(), d) for c, d in zip(conds, dec)])
+            st, _, _, _ = _solve_z3(list(ctx.assumptions) + [ir.zbool(pc), ir.INF_AXIOM] + fin, 3000)
+            if st == "unsat":
+                continue  # contradictory decision vector (the same predicate decided differently twice)
+            sat_paths += 1
+            goals["observation"].append(ir.simplies(pc, kit.tree_eq(gobs, lobs) if tuple(gobs.shape) == tuple(lobs.shape) else False))
+            goals["reward"].append(ir.simplies(pc, ir.seq(grew.scalar() if kit.is_sarr(grew) else grew, lrew.scalar())))
+            gt = gterm.scalar() if kit.is_sarr(gterm) else bool(gterm)
+            goals["terminated"].append(ir.simplies(pc, ir.seq(gt, lterm.scalar())))
+            for key_, gv in ginfo.items():
+                if key_.startswith("reward_") and key_ in linfo:
+                    goals.setdefault("component:" + key_, []).append(ir.simplies(pc, ir.seq(gv.scalar() if kit.is_sarr(gv) else gv, linfo[key_].scalar())))
+        S.fact(f"{name}/reference-paths-explored", sat_paths >= 1, function=fnp, what=f"the real Gymnasium step was executed symbolically on {sat_paths} feasible Python-level paths ({len(paths)} decision vectors)")
+        what = dict(observation="observation(successor) equals Gymnasium v5's _get_obs() on the same physical state (documented default options)",
+                    reward="reward(state, action, successor) equals Gymnasium v5's reward for every pair of physical states and every in-range action",
+                    terminated="terminal(successor) equals Gymnasium v5's terminated flag",
+                    components="the reward components reported in transition_info equal Gymnasium v5's info entries")
+        for gname, gl in goals.items():
+            S.prove(f"{name}/{gname}", ctx, sand(*gl), hyps=fin + in_range, function=fnp + "." + {"observation": "observation", "reward": "reward", "terminated": "terminal"}.get(gname, "transition_info"),
+                    what=what.get(gname, f"the reward component {gname.split(':')[-1]} reported in transition_info equals Gymnasium v5's info entry"), nl_budget_ms=-8000)
+        # reset: derived kinematics consistent with the sampled configuration (Gymnasium's set_state runs mj_forward)
+        ctx2 = Ctx()
+        kk, kc = kit.key_input("key")
+        mod = importlib.import_module(type(lenv).__module__)
+
+        def fwd_stub(model, data):
+            return data.replace(xpos=ocall("mjx.forward.xpos", sd(data.xpos.shape, f32), data.qpos, data.qvel))
+
+        def normal_stub(key, shape=(), dtype=float, **kw):
+            return ocall("normal", sd(tuple(shape), f32), key)
+        base_data = mjx.make_data(lenv.model)
+        with extract.patched((jr, "uniform", uniform_stub), (jr, "normal", normal_stub), (mod.mjx, "forward", fwd_stub), (mod.mjx, "make_data", lambda m: base_data)):
+            st0 = run(ctx2, lambda q: lenv.initial(key=q), kk)
+        dat = st0.sim_state
+        spec = run(ctx2, lambda q, v: ocall("mjx.forward.xpos", sd(tuple(dat.xpos.shape), f32), q, v), dat.qpos, dat.qvel)
+        nb = dat.xpos.shape[0]
+        S.prove(f"{name}/reset-kinematics-consistent", ctx2, sand(*[ir.seq(dat.xpos.at((b, c_)), spec.at((b, c_))) for b in sorted({0, 1, nb - 1}) for c_ in range(3)]), function=fnp + ".initial",
+                replay=_reset_replay(name), what="the reset state's derived kinematics are mjx.forward of its sampled configuration (as Gymnasium's set_state + mj_forward): reset observations and the first step's reward use consistent body positions")
+    return unit
+
+
+def _reset_replay(name):
+    def replay(model):
+        from lerax.env import mujoco as LM
+        from mujoco import mjx
+        env = getattr(LM, name)()
+        st = jax.jit(lambda k: env.initial(key=k))(jax.random.key(0))
+        fw = jax.jit(lambda d: mjx.forward(env.model, d))(st.sim_state)
+        err = float(jnp.max(jnp.abs(fw.xpos - st.sim_state.xpos)))
+        return dict(reproduced=err > 1e-6, route="R1", inputs=dict(env=name, key_seed=0), observed=dict(max_abs_xpos_difference_to_forward_kinematics=err))
+    return replay
+
+
+UNITS = UNITS + [(f"mujoco:{n}", unit_mujoco(n)) for n in MUJOCO]
+
+
+def unit_mujoco_transition(S):
+    """AbstractMujocoEnv.transition (shared by the 11 environments): ctrl := action, then frame_skip applications of mjx.step, t' = t + dt."""
+    from mujoco import mjx
+    from lerax.env import mujoco as LM
+    from lerax.env.mujoco import base_mujoco as BM
+    from lerax.env.mujoco.base_mujoco import MujocoEnvState
+    fn = "lerax.env.mujoco.base_mujoco:AbstractMujocoEnv.transition"
+    S.under_contract(fn)
+    for name in ("InvertedPendulum", "HalfCheetah"):
+        lenv = getattr(LM, name)()
+        ctx = Ctx()
+        ctx.unroll_limit = 0  # keep the frame-skip loop symbolic: its trip count is read off the scan record
+        dstruct = jax.eval_shape(lambda: mjx.make_data(lenv.model))
+        d0 = sym(ctx, "d0", dstruct)
+        a = sym(ctx, "a", sd(lenv.action_space.shape, f32))
+        t, tc = kit.real_scalar("t")
+
+        def step_stub(model, data):
+            return data.replace(qpos=ocall("mjx.step.qpos", sd(data.qpos.shape, f32), data.qpos, data.qvel, data.ctrl), qvel=ocall("mjx.step.qvel", sd(data.qvel.shape, f32), data.qpos, data.qvel, data.ctrl))
+        with extract.patched((BM.mjx, "step", step_stub)):
+            ns = run(ctx, lambda x0, aa, tt: lenv.transition(MujocoEnvState(sim_state=x0, t=tt), aa, key=jax.random.key(0)), d0, a, t)
+        ok = len(ctx.scans) == 1 and ctx.scans[0].length == lenv.frame_skip or (len(ctx.scans) == 1 and ir.is_z3(ctx.scans[0].length) is False and int(ctx.scans[0].length) == lenv.frame_skip)
+        S.fact(f"{name}.transition/frame_skip-physics-steps", bool(ok), function=fn, what="one loop of exactly frame_skip applications of mjx.step", detail=dict(scans=len(ctx.scans), frame_skip=lenv.frame_skip))
+        if len(ctx.scans) == 1:
+            rec = ctx.scans[0]
+            n0 = len(ctx.calls)
+            rec.body(rec.init, 0)  # the first physics step, on the loop's initial carry
+            c = [x for x in ctx.calls[n0:] if x.name == "mjx.step.qpos"][0]
+            S.prove(f"{name}.transition/ctrl-is-the-action", ctx, sand(*[ir.seq(c.operands[2].at(i), a.at(i)) for i in a.indices()]), function=fn, what="the physics is driven with ctrl = action")
+            S.prove(f"{name}.transition/starts-from-the-state", ctx, sand(*[ir.seq(c.operands[0].at(i), d0.qpos.at(i)) for i in d0.qpos.indices()],
+                                                                         *[ir.seq(c.operands[1].at(i), d0.qvel.at(i)) for i in d0.qvel.indices()]), function=fn, what="the loop starts from the state's physics data")
+        S.prove(f"{name}.transition/time-advances-by-dt", ctx, ir.seq(ns.t.scalar(), tc + ir.zreal(ir.const_float(np.float32(lenv.dt)))), function=fn, what="t' = t + dt (dt = frame_skip * timestep)")
+
+
+UNITS = UNITS + [("mujoco-transition", unit_mujoco_transition)]
